@@ -68,7 +68,8 @@ theorem countByteLoop_spec (m : Mem) (p : UInt8 → Bool) (end_ ptr count : Nat)
   fun_induction countByteLoop m p end_ ptr count generalizing c with
   | case1 ptr count h ih =>
     have hr := Mem.read_ok m ptr { c with steps := c.steps + 1 } hb (by omega)
-    simp only [M.bind_run, tick_run, hr]
+    have hpa := Mem.padd_ok m "count_byte_by_byte: ptr.offset(1)" ptr 1 hb (by omega)
+    simp only [M.bind_run, tick_run, hr, hpa, M.pure_run]
     obtain ⟨c', hrun⟩ := ih (m.byteAt ptr)
       { steps := c.steps + 1, loads := ⟨m.region, ptr - m.base, 1, false⟩ :: c.loads }
       (by omega) (by omega)
@@ -103,7 +104,8 @@ theorem countLoop1_spec (L : Lawful V) (n1 : UInt8) (m : Mem) (end_ cur count : 
     have hd := Mem.distance_ok m "count_raw: end.distance(cur)" end_ cur (by omega) (by omega) he
     have hda : decide (end_ - cur ≥ V.bytes) = true := by simp; omega
     have hl := Mem.loadU_ok m cur V.bytes { c with steps := c.steps + 1 } hb (by omega)
-    simp only [M.bind_run, tick_run, hd, M.pure_run, dbgAssert_ok _ hda, VecImpl.loadU, hl]
+    have hpa := Mem.padd_ok m "count_raw: cur.add(V::BYTES)" cur V.bytes hb (by omega)
+    simp only [M.bind_run, tick_run, hd, M.pure_run, dbgAssert_ok _ hda, VecImpl.loadU, hl, hpa]
     obtain ⟨c', hrun⟩ := ih (m.window cur V.bytes)
       { steps := c.steps + 1, loads := ⟨m.region, cur - m.base, V.bytes, false⟩ :: c.loads }
       (by omega) (by omega)
@@ -129,7 +131,9 @@ theorem countLoopN_spec (L : Lawful V) (n1 : UInt8) (u : Nat) (hu : 0 < u) (m : 
     have hda : (cur % V.bytes == 0) = true := by simp [hal]
     obtain ⟨c1, hl⟩ := loadChunks_ok (V := V) m cur u { c with steps := c.steps + 1 } hb
       (by omega) (fun _ => hal)
-    simp only [M.bind_run, tick_run, dbgAssert_ok _ hda, M.pure_run, hl]
+    have hpa := Mem.padd_ok m "count_raw: cur.add(Self::LOOP_SIZE)" cur (u * V.bytes) hb
+      (by omega)
+    simp only [M.bind_run, tick_run, dbgAssert_ok _ hda, M.pure_run, hl, hpa]
     obtain ⟨c', hrun⟩ := ih ((chunkAddrs V cur u).map (fun a => m.window a V.bytes)) c1
       (by omega) (by omega) (by rw [Nat.add_mul_mod_self_right]; exact hal)
     refine ⟨c', ?_⟩
